@@ -57,6 +57,19 @@ pub enum SizeError {
         actual: u64,
     },
 
+    /// An entry's esize does not fit the esize field width of the header
+    #[error("eSize {esize} does not fit in {width} byte(s)")]
+    EsizeTooLarge {
+        /// The entry's estimated size
+        esize: u64,
+        /// Byte width of the esize field
+        width: u8,
+    },
+
+    /// V2 total_size does not fit its 40-bit header field
+    #[error("Total size {0} does not fit in 40 bits")]
+    TotalSizeTooLarge(u64),
+
     /// Binary read/write error
     #[error("Binary parsing error: {0}")]
     BinRead(String),
